@@ -164,6 +164,31 @@ Definition construct (dim : nat) (spatial_dim : option nat) (latlon temporal : b
   | Some (l, a) => Some (mkGeo d latlon temporal (nabs O geo_scale) l a (set_model_angles d angles latlon temporal))
   end.
 
+(* the setters len_scale / anis / angles of CovModel (bounds checks of check_arg_bounds not modelled:
+   callers stay inside the bounds) *)
+Inductive gop := OpLen (ls : list T) | OpAnis (a : list T) | OpAngles (a : list T).
+Definition gstep (m : geomodel) (op : gop) : option geomodel :=
+  match op with
+  | OpLen ls =>
+      match set_len_anis (g_dim m) ls (g_anis m) (g_latlon m) with
+      | None => None
+      | Some (l, a) => Some (mkGeo (g_dim m) (g_latlon m) (g_temporal m) (g_geo_scale m) l a (g_angles m))
+      end
+  | OpAnis an =>
+      match set_len_anis (g_dim m) [g_len_scale m] an (g_latlon m) with
+      | None => None
+      | Some (l, a) => Some (mkGeo (g_dim m) (g_latlon m) (g_temporal m) (g_geo_scale m) l a (g_angles m))
+      end
+  | OpAngles ang =>
+      Some (mkGeo (g_dim m) (g_latlon m) (g_temporal m) (g_geo_scale m) (g_len_scale m) (g_anis m)
+                  (set_model_angles (g_dim m) ang (g_latlon m) (g_temporal m)))
+  end.
+Fixpoint gsteps (m : geomodel) (ops : list gop) : option geomodel :=
+  match ops with
+  | [] => Some m
+  | op :: r => match gstep m op with None => None | Some m' => gsteps m' r end
+  end.
+
 Definition field_dim (m : geomodel) : nat := if g_latlon m then 2 + b2n (g_temporal m) else g_dim m.
 Definition spatial_dim (m : geomodel) : nat := if g_latlon m then 2 else g_dim m - b2n (g_temporal m).
 
